@@ -19,6 +19,7 @@ static struct opr ops[MAXT][MAXO];
 static int nops[MAXT];
 static IWKV kv;
 static IWDB dbs[4];
+static IWDB hdl[MAXT][4];   // per-thread handles obtained concurrently with iwkv_db
 static atomic_long stamp;
 static pthread_barrier_t bar;
 
@@ -58,13 +59,24 @@ static void* runner(void *arg) {
     struct opr *o = &ops[t][i];
     char buf[128];
     o->inv = atomic_fetch_add(&stamp, 1);
-    if (!strcmp(o->kind, "put")) {
+    IWDB db = (o->db >= 0 && o->db < 4) ? (hdl[t][o->db] ? hdl[t][o->db] : dbs[o->db]) : 0;
+    if (!strcmp(o->kind, "opendb")) {
+      iwrc rc = iwkv_db(kv, (uint32_t) o->db + 1, 0, &hdl[t][o->db]);
+      o->ans = strdup(rc ? "ERR" : "OK");
+    } else if (!strcmp(o->kind, "hold")) {
+      IWKV_cursor c;
+      iwrc rc = db ? iwkv_cursor_open(db, &c, IWKV_CURSOR_BEFORE_FIRST, 0) : 1;
+      if (!rc) { usleep(1000 * (o->kl ? o->k[0] : 5)); iwkv_cursor_close(&c); }
+      o->ans = strdup("OK");
+    } else if (!db && strcmp(o->kind, "sync") && strcmp(o->kind, "checkpoint")) {
+      o->ans = strdup("NODB");
+    } else if (!strcmp(o->kind, "put")) {
       IWKV_val k = { .data = o->k, .size = o->kl }, v = { .data = o->v, .size = o->vl };
-      iwrc rc = iwkv_put(dbs[o->db], &k, &v, 0);
+      iwrc rc = iwkv_put(db, &k, &v, 0);
       snprintf(buf, sizeof(buf), "%s", rc ? "ERR" : "OK"); o->ans = strdup(buf);
     } else if (!strcmp(o->kind, "get")) {
       IWKV_val k = { .data = o->k, .size = o->kl }, v = { 0 };
-      iwrc rc = iwkv_get(dbs[o->db], &k, &v);
+      iwrc rc = iwkv_get(db, &k, &v);
       if (rc == IWKV_ERROR_NOTFOUND) o->ans = strdup("NOTFOUND");
       else if (rc) o->ans = strdup("ERR");
       else {
@@ -75,10 +87,10 @@ static void* runner(void *arg) {
       }
     } else if (!strcmp(o->kind, "del")) {
       IWKV_val k = { .data = o->k, .size = o->kl };
-      iwrc rc = iwkv_del(dbs[o->db], &k, 0);
+      iwrc rc = iwkv_del(db, &k, 0);
       o->ans = strdup(rc == IWKV_ERROR_NOTFOUND ? "NOTFOUND" : rc ? "ERR" : "OK");
     } else if (!strcmp(o->kind, "scan")) {
-      o->ans = scan(dbs[o->db]);
+      o->ans = scan(db);
     } else if (!strcmp(o->kind, "sync")) {
       iwrc rc = iwkv_sync(kv, 0);
       o->ans = strdup(rc ? "ERR" : "OK");
@@ -126,7 +138,7 @@ int main(void) {
       for (int t = 0; t < nt; ++t)
         for (int i = 0; i < nops[t]; ++i)
           printf("%d %d %ld %ld %s\n", t, i, ops[t][i].inv, ops[t][i].res, ops[t][i].ans);
-      for (int d = 0; d < ndb; ++d) { char *f = scan(dbs[d]); printf("FINAL %d %s\n", d, f); free(f); }
+      for (int d = 0; d < 3; ++d) { IWDB fd = 0; if (iwkv_db(kv, d + 1, 0, &fd)) { printf("FINAL %d ERR\n", d); continue; } char *f = scan(fd); printf("FINAL %d %s\n", d, f); free(f); }
       iwrc rc = iwkv_close(&kv);
       printf(rc ? "CLOSEERR\n" : "DONE\n");
       return 0;
